@@ -65,7 +65,7 @@ VERUS = [dict(
     ],
 )]
 M = "common/stats.rs"
-KANI = [dict(package="datafusion-common", module=M, timeout=3000, harnesses=[
+KANI = [dict(package="datafusion-common", module=M, timeout=900, harnesses=[
     dict(name="c29_add", complete=True, what="Precision<usize>::add, full usize x usize x 3x3 variants: Exact only for Exact+Exact without overflow and then the true sum; Absent absorbs; otherwise Inexact(saturated)"),
     dict(name="c29_sub", complete=True, what="Precision<usize>::sub, same contract with checked_sub"),
     dict(name="c29_multiply", complete=True, what="Precision<usize>::multiply, same contract, full 64x64->128 bit domain"),
